@@ -24,16 +24,27 @@ FLAVOURS = {
              "-fno-sanitize=alignment", "-fno-sanitize-recover=undefined",
              "-DDISCOPT_CMR_VERIF_HASH_RANGE=7"],
     "tsan": ["-O1", "-g", "-fsanitize=thread"],
+    # production semantics (asserts off) under the sanitizers
+    "asan_nd": ["-O1", "-g", "-DNDEBUG", "-fno-omit-frame-pointer", "-fsanitize=address,undefined",
+                "-fno-sanitize=alignment", "-fno-sanitize-recover=undefined"],
     "plain": ["-O1", "-g"],   # asserts on, no sanitizer (fast; used for bulk sweeps)
 }
 LINKFLAGS = {
-    "asan": ["-fsanitize=address,undefined"], "hash": ["-fsanitize=address,undefined"],
+    "asan": ["-fsanitize=address,undefined"], "hash": ["-fsanitize=address,undefined"], "asan_nd": ["-fsanitize=address,undefined"],
     "align": ["-fsanitize=alignment"], "tsan": ["-fsanitize=thread"], "ndebug": [], "plain": [],
 }
 
+def harness_hash():
+    h = hashlib.sha256()
+    d = os.path.join(VERIF, "harness")
+    for f in sorted(os.listdir(d)):
+        h.update(f.encode()); h.update(open(os.path.join(d, f), "rb").read())
+    return h.hexdigest()[:10]
+
+
 def tree_hash():
     h = hashlib.sha256()
-    roots = [os.path.join(REPO, "src"), os.path.join(REPO, "include"), os.path.join(VERIF, "harness")]
+    roots = [os.path.join(REPO, "src"), os.path.join(REPO, "include")]
     files = [os.path.join(REPO, "CMakeLists.txt")]
     for r in roots:
         for d, _, fs in os.walk(r):
@@ -117,14 +128,22 @@ def build(flavour, want_tools=False, harness_units=("cmrh",), wraps=()):
             if rc != 0: raise BuildError(out)
             os.rename(lib + ".tmp", lib)
         # harness
-        hexe = os.path.join(d, "cmrh")
+        hh = harness_hash()
+        hexe = os.path.join(d, "cmrh-" + hh)
+        link = os.path.join(d, "cmrh")
         if not os.path.exists(hexe):
+            for old in os.listdir(d):
+                if old.startswith("cmrh-"):
+                    os.remove(os.path.join(d, old))
             hs = [os.path.join(VERIF, "harness", u + ".c") for u in ("cmrh", "ops_basic", "ops_tree", "wrap")]
             hs = [x for x in hs if os.path.exists(x)]
             wrapflags = ["-Wl,--wrap=clock", "-Wl,--wrap=_CMRallocStack", "-Wl,--wrap=_CMRfreeStack"]
             rc, out = run(["gcc"] + cflags + hs + [lib, "-o", hexe + ".tmp"] + LINKFLAGS[flavour] + wrapflags + ["-lgmp", "-lm", "-lpthread"])
             if rc != 0: raise BuildError("harness link failed:\n" + out)
             os.rename(hexe + ".tmp", hexe)
+        if os.path.islink(link) or os.path.exists(link):
+            os.remove(link)
+        os.symlink(os.path.basename(hexe), link)
         if want_tools:
             td = os.path.join(d, "tools")
             os.makedirs(td, exist_ok=True)
